@@ -3,14 +3,14 @@
  (b) dry runs in the engine harness: nothing on the (in-memory) disk or in the logs changes; commands listed = commands the next real build runs
  (c) real binary: every read-only tool leaves the build directory byte-identical; -t commands = what a from-scratch build runs, in dependency order"""
 import hashlib, itertools, json, os, random, shutil, subprocess, tempfile
-import vlib, engine, enginecheck as ec
+import vlib, engine, enginecheck as ec, histmodel
 from vlib import hexs, unhex
 from props import engcommon
 
 LEVEL = 'proof'
 TRUSTED = engcommon.TRUSTED_ENGINE + ['harness/run_esc.cc json component (real EncodeJSONString)', 'python json module as the judge of JSON validity', 'the real ninja binary built from the working tree, /bin/sh commands cp/cat in a scratch directory under /dev/shm']
 ASSUMPTIONS = ['JSON clause: proved for the byte-level grammar and for valid UTF-8 input (Properties_C19json); bytes >= 0x80 that are not UTF-8 are a listed known finding',
-               'dry-run prediction: exact when no restat rule prunes work (checked as equality there, as superset otherwise); not a Coq theorem (the plan model has no dry-run mode)']
+               'dry-run prediction: exact when no restat rule prunes work (checked as equality there, as superset otherwise); at history level a Coq theorem about HistDry.dry_build (Properties_C19dry.v), tied to the real engine by tools/histmodel.py']
 
 def snapshot(d):
     snap = {}
@@ -191,3 +191,6 @@ def run(ctx):
                         'build directory around each, -t commands vs from-scratch build, compdb with all ASCII bytes / UTF-8 / invalid UTF-8' % (3000, nd, nreal),
                    samples=[{'json_in': repr(cases[300]), 'json_out': repr(unhex(iout[300]))}, {'dry_run_history': hists[0].sid, 'steps': [s.line[:90] for s in hists[0].steps[-3:]]}],
                    distribution=dict(json_cases=len(cases), dry_run_histories=nd, real_tool_invocations=nreal))
+    # the dry-run model (coq/Engine/HistDry.v, theorems of Properties_C19dry.v) run against the real engine: dry runs interleaved
+    # with real builds in histories inside the model's fragment
+    histmodel.hook(ctx, 'C19', dry=0.5, quick=300, thorough=3000, key='hist_model_dry_runs')
